@@ -923,9 +923,8 @@ func StoreSweep(x *Ctx, kind string) {
 				case "state", "snap":
 					props = []string{"C13"}
 				}
-				if sig == "newraft-failed" {
-					props = append(props, "C14")
-				}
+				// a node created over this image starts from a wrong disk state (or cannot be created): C14 as well
+				props = append(props, "C14")
 				opk := ""
 				switch {
 				case kind == "log" && cur >= 1 && cur <= len(logOps):
